@@ -175,3 +175,12 @@ info('C17',
      'shared references and self-referential containers; recursive observational equality and test_sanity() of the loaded object.',
      ['relational save->load symbolic execution over an abstract store (DESIGN 4/C17): not built; bounded only', 'h5py and pickle themselves'],
      [])
+info('C18',
+     'P: crash invariant of Simulation.save_results over the full finite file-state domain (ghost states absent/partial/complete(old)/'
+     'complete(new) of output and backup; POSIX contracts for exists/unlink/rename; _save_to_file interruptible): an obligation at every '
+     'crash point, plus the normal-exit state; the real control flow of save_results is executed symbolically. '
+     'B (bounded, labelled fault enumeration): the same on the real file system (pickle and HDF5, byte prefixes), and resume from every '
+     'early checkpoint of a TEBD time evolution and a two-site DMRG ground-state search compared with the uninterrupted run.',
+     ['whole-run equality (resume == uninterrupted) is a history property: bounded only',
+      'engines other than TEBDEngine/TwoSiteDMRGEngine: not resumed'],
+     ['Path.exists/unlink/rename and _save_to_file obey their POSIX ghost contracts (rename is an atomic replace)'])
